@@ -3,3 +3,15 @@ package props
 import "github.com/protobom/protobom/pkg/native"
 
 func renderOpts(indent int) *native.RenderOptions { return &native.RenderOptions{Indent: indent} }
+
+func dedupe(in []string) []string {
+	seen := map[string]bool{}
+	out := []string{}
+	for _, s := range in {
+		if !seen[s] {
+			seen[s] = true
+			out = append(out, s)
+		}
+	}
+	return out
+}
